@@ -12664,7 +12664,7 @@ tmcg_openpgp_byte_t CallasDonnerhackeFinneyShawThayerRFC4880::PacketDecodeTag11
 	}
 	out.datalen = pkt.size() - (out.datafilenamelen + 6);
 	if (out.datalen == 0)
-		return 0; // error: no data
+		return 11; // literal data packet without data octets (empty file)
 	out.data = new tmcg_openpgp_byte_t[out.datalen];
 	for (size_t i = 0; i < out.datalen; i++)
 		out.data[i] = pkt[6+out.datafilenamelen+i];
